@@ -19,7 +19,8 @@ struct PWord {
 }
 
 const LETTERS: &str = "abcdefghijklmnopqrstuvwxyz";
-const ACCENTED: &[char] = &['é', 'ü', 'ñ', 'ж', 'я', 'λ', 'É', 'Ж'];
+// (the last five change their UTF-8 length when lower-cased or upper-cased: Kelvin, Ohm and Angstrom signs, ẞ, İ)
+const ACCENTED: &[char] = &['é', 'ü', 'ñ', 'ж', 'я', 'λ', 'É', 'Ж', '\u{212a}', '\u{2126}', '\u{212b}', 'ẞ', 'İ'];
 
 fn letters(rng: &mut Rng, n: usize) -> String {
     (0..n)
@@ -52,6 +53,8 @@ fn plain_part(rng: &mut Rng, first: bool, forced_len: Option<usize>) -> (String,
         } else {
             let n = forced_len.unwrap_or_else(|| match rng.below(10) {
                 0 => *rng.pick(&[10usize, 20, 11, 19, 23]),
+                // (very long words: the length is counted modulo 10, not modulo 256 first)
+                1 if rng.chance(1, 20) => *rng.pick(&[100usize, 255, 256, 257, 300, 1000, 65_536]),
                 _ => rng.range(1, 9),
             });
             (letters(rng, n), n)
